@@ -1,6 +1,7 @@
 /- Driver half of engine `vec`: executes the line protocol on the `OV` model. -/
 import EyeballVerif.Driver.Text
 import EyeballVerif.Model.OVec
+import EyeballVerif.Model.OVecStep
 namespace EV
 
 def Ret.show : Ret Nat → String
@@ -14,6 +15,13 @@ def Item.show : Item Nat → String
   | .pending => "Pending"
   | .done => "End"
   | .panic => "panic"
+
+def RK.show : RK → String
+  | .none => "-"
+  | .ok => "Ok"
+  | .empty => "Empty"
+  | .closed => "Closed"
+  | .lagged => "Lagged"
 
 def showWoke (w : List Nat) : String := " woke=" ++ showList w
 
